@@ -213,7 +213,11 @@ func (c Cap) RectBound() Rect {
 		return EmptyRect()
 	}
 
-	capAngle := c.Radius().Radians()
+	// The cap angle is derived from the squared chord length rounded up by a
+	// few ulps: for a cap that is nearly the whole sphere the conversion
+	// (an arc sine of a value close to 1) amplifies a rounding error of the
+	// radius without bound, and the radius is what defines the cap.
+	capAngle := c.radius.Expanded(capRectBoundSlack * dblEpsilon * float64(c.radius)).Angle().Radians()
 	allLongitudes := false
 	lat := r1.Interval{
 		Lo: latitude(c.center).Radians() - capAngle,
@@ -242,18 +246,36 @@ func (c Cap) RectBound() Rect {
 		// we have sin(a)/sin(A) = sin(c)/sin(C), or sin(A) = sin(a)/sin(c).
 		// Here "a" is the cap angle, and "c" is the colatitude (90 degrees
 		// minus the latitude). This formula also works for negative latitudes.
+		// (sin(c) is computed from the coordinates of the center rather than
+		// as the cosine of its latitude, which has a large relative error when
+		// the center is close to a pole.)
 		//
 		// The formula for sin(a) follows from the relationship h = 1 - cos(a).
+		//
+		// The quotient is rounded up before taking the arc sine: as it
+		// approaches 1 (the cap nearly touches a pole) the rounding errors of
+		// sinA, sinC and of the division are amplified without bound by
+		// math.Asin, and no fixed padding of the result could cover them. If
+		// the rounded-up quotient reaches 1 the longitude range stays full.
 		sinA := c.radius.Sin()
-		sinC := math.Cos(latitude(c.center).Radians())
-		if sinA <= sinC {
-			angleA := math.Asin(sinA / sinC)
+		sinC := math.Sqrt(c.center.X*c.center.X+c.center.Y*c.center.Y) / c.center.Norm()
+		if q := sinA / sinC * (1 + capRectBoundSlack*dblEpsilon); q < 1 {
+			angleA := math.Asin(q)
 			lng.Lo = math.Remainder(longitude(c.center).Radians()-angleA, math.Pi*2)
 			lng.Hi = math.Remainder(longitude(c.center).Radians()+angleA, math.Pi*2)
 		}
 	}
-	return Rect{lat, lng}
+	// Finally pad the rectangle so that it contains the *computed* LatLng of
+	// every point of the cap (compare RectBounder.RectBound): the latitude of
+	// the center, the cap angle and the latitude / longitude of the point
+	// being tested are each only accurate to about dblEpsilon.
+	margin := s1.Angle(capRectBoundSlack * dblEpsilon)
+	return Rect{lat, lng}.expanded(LatLng{margin, margin}).PolarClosure()
 }
+
+// capRectBoundSlack is the padding used by Cap.RectBound, in units of
+// dblEpsilon; see there.
+const capRectBoundSlack = 4
 
 // Equal reports whether this cap is equal to the other cap.
 func (c Cap) Equal(other Cap) bool {
